@@ -243,12 +243,27 @@ def garbage : List String := ["not arr.ai {{{", "", "# notes", "(a: "]
 
 /-! ## directory layouts -/
 
+/-! Names probe the discovery rule of getTestFiles: a FILE is a test file iff its path ends in
+`_test.arrai` (case sensitive; hidden files included: only directories are tested for the dot);
+a DIRECTORY is skipped iff its name starts with '.', every other name is walked. -/
+
+/-- file names that are test files -/
 def testNames : List String :=
-  ["a_test.arrai", "b_test.arrai", "m_test.arrai", "z_test.arrai", "_test.arrai", ".h_test.arrai", "x.y_test.arrai"]
+  ["a_test.arrai", "b_test.arrai", "broken_test.arrai", "m_test.arrai", "z_test.arrai", "_test.arrai", "__test.arrai",
+   ".a_test.arrai", ".h_test.arrai", "x.y_test.arrai", "my test_test.arrai", "a-b_test.arrai", "é_test.arrai",
+   "testdata_test.arrai", "_wip_test.arrai", "A_test.arrai", "a_test.arrai_test.arrai"]
+/-- file names that are not -/
 def otherNames : List String :=
-  ["helper.arrai", "test.arrai", "a_test.arrai.txt", "x_test.arra", "README.md", "_test.arrai.bak", "atest.arrai",
-   "a_test_arrai"]
-def dirNames : List String := ["sub", "pkg", ".git", ".hidden", "d_test.arrai", "deep", "a", "z.d"]
+  ["helper.arrai", "test.arrai", "a_test.arrai.txt", "a_test.arrai.bak", "a_test.arrai~", "x_test.arra", "README.md",
+   "_test.arrai.bak", "atest.arrai", "a_test_arrai", "A_TEST.ARRAI", "a_Test.arrai", "a_test.ARRAI", "a_test.arraii",
+   "a_test.arrai ", "_test", "a_test.arrai.d", "é_test.arrái"]
+/-- directories that are walked, whatever other tools think of them -/
+def probeDirs : List String :=
+  ["_wip", "testdata", "vendor", "node_modules", "_", "__x", "_old", "Testdata", "test", "tests"]
+def plainDirs : List String :=
+  ["sub", "pkg", "deep", "a", "x.d", "z.d", "d_test.arrai", "_test.arrai", "my dir", "a-b", "über", "x..y", "a.", "~tmp"]
+/-- directories that are skipped: exactly the names starting with a dot -/
+def hiddenDirs : List String := [".git", ".hidden", ".h_test.arrai", "..x", "._wip", ".testdata", ". "]
 
 /-- content of a file: `none` = does not compile -/
 def genContent (cfg : Cfg) (broken : Nat) : Gen (Option Tree) := do
@@ -262,21 +277,30 @@ def insertNode (n : Node) : List Node → List Node
 /-- the listing of a directory as `readDirNames` returns it -/
 def sortNodes (ns : List Node) : List Node := ns.foldr insertNode []
 
-/-- `visible = false`: below a hidden directory, where nothing must be picked up — fill it with failures -/
+def hasName (n : String) (ns : List Node) : Bool := ns.any (fun m => m.name == s2n n)
+
+/-- `visible = false`: below a hidden directory, where nothing must be picked up — fill it with failures.
+`force`: at least one test file directly in this directory. -/
 def genDir (cfg : Cfg) (broken : Nat) (name : String) (visible : Bool) (force : Bool := false) : Nat → Gen Node
   | 0 => do
-    let tests ← subset testNames 1 5
+    let tests ← subset testNames 1 11
     let tests ← if force && tests.isEmpty then (do pure [← pick testNames]) else pure tests
+    let others ← subset otherNames 1 14
     let mut out := []
     for f in tests do
       let c ← genContent (if visible then cfg else { cfg with allTrue := false }) (if visible then broken else 30)
       out := Node.file (s2n f) c :: out
+    for f in others do
+      let c ← genContent { cfg with allTrue := false, allowFail := true } 40
+      out := Node.file (s2n f) c :: out
     pure (.dir (s2n name) (sortNodes out))
   | d + 1 => do
-    let tests ← subset testNames 1 5
+    let tests ← subset testNames 1 11
     let tests ← if force && tests.isEmpty then (do pure [← pick testNames]) else pure tests
-    let others ← subset otherNames 1 6
-    let dirs ← subset dirNames 1 5
+    let others ← subset otherNames 1 14
+    let plain ← subset plainDirs 1 12
+    let probe ← subset probeDirs 1 8
+    let hidden ← subset hiddenDirs 1 9
     let mut out := []
     for f in tests do
       let c ← genContent (if visible then cfg else { cfg with allTrue := false }) (if visible then broken else 30)
@@ -285,9 +309,15 @@ def genDir (cfg : Cfg) (broken : Nat) (name : String) (visible : Bool) (force : 
       -- never read: may be garbage or a failing test tree
       let c ← genContent { cfg with allTrue := false, allowFail := true } 40
       out := Node.file (s2n f) c :: out
-    for dn in dirs do
-      let sub ← genDir cfg broken dn (visible && !dn.startsWith ".") false d
-      out := sub :: out
+    for dn in plain do
+      if !hasName dn out then
+        out := (← genDir cfg broken dn visible false d) :: out
+    for dn in probe do
+      -- walked like any other directory: always holds a test file, so skipping it changes the report
+      out := (← genDir cfg broken dn visible true d) :: out
+    for dn in hidden do
+      if !hasName dn out then
+        out := (← genDir cfg broken dn false true d) :: out
     pure (.dir (s2n name) (sortNodes out))
 
 def findChild (name : Name) : List Node → Option Node
@@ -347,45 +377,12 @@ def treeNamesOk : Option Tree → Bool
   | some t => Spec.namesOk t
   | none => true
 
-def isFuncLeaf : Tree → Bool
-  | .leaf .func => true
-  | _ => false
-def isDict : Tree → Bool
-  | .dict _ => true
-  | _ => false
-
-/-- some key of `es` holds both a function and a dictionary -/
-def funcAndDictUnderOneKey (es : List (Key × Tree)) : Bool :=
-  es.any (fun (k, v) => isFuncLeaf v && es.any (fun (k', v') => k == k' && isDict v'))
-
-mutual
-/-- class of KF-c20-func-beside-dict: somewhere a dictionary key holds a function and a dictionary -/
-def funcBesideDict : Tree → Bool
-  | .leaf _ => false
-  | .tup as => fbdAttrs as
-  | .arr _ items => fbdItems items
-  | .dict es => funcAndDictUnderOneKey es || fbdEntries es
-def fbdAttrs : List (Name × Tree) → Bool
-  | [] => false
-  | (_, t) :: r => funcBesideDict t || fbdAttrs r
-def fbdItems : List (Option Tree) → Bool
-  | [] => false
-  | none :: r => fbdItems r
-  | some t :: r => funcBesideDict t || fbdItems r
-def fbdEntries : List (Key × Tree) → Bool
-  | [] => false
-  | (_, t) :: r => funcBesideDict t || fbdEntries r
-end
-
 def classOf (w : World) (target : Name) : String :=
   match w.lstat (Impl.targetPath w target) with
   | none => "good"
   | some n =>
     let files := Impl.walk n (Impl.targetPath w target)
-    if !files.all (fun f => treeNamesOk f.content) then "KF-c20-dotted-attr-name"
-    else if files.any (fun f => match f.content with | some t => funcBesideDict t | none => false) then
-      "KF-c20-func-beside-dict"
-    else "good"
+    if !files.all (fun f => treeNamesOk f.content) then "KF-c20-dotted-attr-name" else "good"
 
 def mkCase (id stratum : String) (root : Node) (target : Name) (files : List String) : Case :=
   let w : World := { cwd := ['/'], lstat := lstatOf root }
@@ -464,8 +461,20 @@ def corpus : List Case :=
       .dict [(.str (s2n "a"), lt), (.str (s2n "b"), lt), (.str (s2n "b"), lf)])])]) "/t",
     mk 11 (dir "t" [file "a_test.arrai" (.arr 0 [some (.dict [(.num 1, .tup []), (.num 1, .arr 0 [some lt]),
       (.num 1, .dict [(.num 2, lt), (.num 2, .leaf .other)])])])]) "/t",
-    -- known finding: a function and a dictionary under one key (Dict.Equal asks the closure for its Count)
-    mk 12 (dir "t" [file "a_test.arrai" (.dict [(.num 1, .dict [(.num 2, lt)]), (.num 1, .leaf .func)])]) "/t" ]
+    -- repaired in rel: a function and a dictionary under one key (Dict.Equal asked the closure for its Count)
+    mk 12 (dir "t" [file "a_test.arrai" (.dict [(.num 1, .dict [(.num 2, lt)]), (.num 1, .leaf .func)])]) "/t",
+    -- seeded bug (round 3): "ignored" directories after the go tool's rule (_x, testdata) were skipped
+    mk 13 (dir "t" [file "a_test.arrai" lt, dir "_wip" [file "broken_test.arrai" lf],
+      dir "testdata" [file "b_test.arrai" lf, dir "_old" [dir "deep" [file "c_test.arrai" (.tup [(s2n "x", lf)])]]],
+      dir "vendor" [file "v_test.arrai" lt], dir "node_modules" [file "n_test.arrai" lt]]) "/t",
+    -- only directories are tested for the dot: hidden FILES are test files; the suffix is case sensitive
+    mk 14 (dir "t" [file ".a_test.arrai" lf, file "A_TEST.ARRAI" lf, file "a_test.arrai.bak" lf, file "a_test.arrai~" lf,
+      file "__test.arrai" lt, dir "_test.arrai" [file "_test.arrai" lt], dir ".x" [file "a_test.arrai" lf]]) "/t",
+    -- the target itself: a hidden directory is skipped, a hidden file is read, an underscore directory is walked
+    mk 15 (dir "t" [dir ".h" [file "a_test.arrai" lt]]) "/t/.h",
+    mk 16 (dir "t" [file ".a_test.arrai" lt, file "b_test.arrai" lf]) "/t/.a_test.arrai",
+    mk 17 (dir "t" [file "a_test.arrai" lt, dir "_wip" [file "w_test.arrai" lf]]) "/t/_wip",
+    mk 18 (dir "t" [dir "vis" [dir ".hid" [dir "vis2" [file "a_test.arrai" lf]], file "b_test.arrai" lt]]) "/t" ]
 
 def gen (seed n : Nat) (thorough : Bool) : List Case := Id.run do
   let mut out := corpus.reverse
